@@ -120,13 +120,13 @@ func setup(sc scenario) {
 	w = &world{dir: dir}
 	db, err := index.NewMetricMetaDatabase("db", dir)
 	if err != nil {
-		vevid.Fatal("new meta db: %v", err)
+		vevid.OpFailed("new meta db: %v", err)
 	}
 	w.db = db
 	// a metric and a tag key that exist before the concurrent phase (scope of fields / tag keys / tag values)
 	m, err := db.GenMetricID([]byte("pre"), []byte("pre"))
 	if err != nil {
-		vevid.Fatal("pre metric: %v", err)
+		vevid.OpFailed("pre metric: %v", err)
 	}
 	w.preMet = m
 	needKey := false
@@ -138,7 +138,7 @@ func setup(sc scenario) {
 	if needKey {
 		k, err := db.GenTagKeyID(m, []byte("prekey"))
 		if err != nil {
-			vevid.Fatal("pre key: %v", err)
+			vevid.OpFailed("pre key: %v", err)
 		}
 		w.preKey = k
 	}
@@ -148,7 +148,7 @@ func setup(sc scenario) {
 	if sc.PreFlush {
 		db.PrepareFlush()
 		if err := db.Flush(); err != nil {
-			vevid.Fatal("pre flush: %v", err)
+			vevid.OpFailed("pre flush: %v", err)
 		}
 	}
 }
